@@ -91,10 +91,6 @@ impl AssocFileData {
         self.source_name.clone()
     }
 
-    pub fn get_file_name(&self) -> String {
-        self.file_name.bytecode_str()
-    }
-
     pub fn bytecode_path(&self) -> Arc<PathBuf> {
         self.file_name.clone()
     }
